@@ -237,10 +237,11 @@ func (t *Target) WaitUntilHealthy(timeout time.Duration) bool {
 // HealthCheckConsumer
 
 func (t *Target) HealthCheckCompleted(success bool) {
-	previousState := t.state
-	newState := t.state
+	var previousState, newState TargetState
 
 	t.withInflightLock(func() {
+		previousState = t.state
+
 		switch success {
 		case true:
 			switch t.state {
